@@ -329,13 +329,14 @@ type c03cfg struct {
 	Mode      string `json:"mode"`        // stream: readall | readfull | copy | bytewise
 	Piece     int    `json:"piece"`       // body delivers at most this many bytes per Read (0 = all)
 	Mix       bool   `json:"mixed_hint"`  // cache: the second reader uses the other locator form
-	Readers   string `json:"readers"`     // cache: "par" = two concurrent readers; "seq" = one reader, then another; "par+1" = two concurrent readers, then a third; "evict" = one reader over three blocks (b0 b1 b2 b0 b1); "evict-par" = two readers over three blocks
+	Readers   string `json:"readers"`     // cache: "par" = two concurrent readers; "seq" = one reader, then another; "par+1" = two concurrent readers, then a third; "evict" = one reader over three blocks (b0 b1 b2 b0); "evict-par" = two readers over three blocks
 	MaxBlocks int    `json:"max_blocks"`  // file: BlockCache.MaxBlocks
 	Buf       int    `json:"buf"`         // file: Read buffer size
 	Free      bool   `json:"free_fault_cost"`
 	Bound     int    `json:"bound"`
 	Full      bool   `json:"full_menu"`
 	Mini      bool   `json:"mini_menu"`
+	Delay     bool   `json:"delay_bounded"` // every deviation from the lowest-id-first scheduler costs 1 (vsched.BlockedSwitchCost), not only preemptions
 
 	small bool // small tree: whole configurations are dealt to the shards (not part of a replay)
 	split int  // big tree: deal subtrees at this deviation depth to the shards (default 2)
@@ -368,6 +369,9 @@ func (c c03cfg) String() string {
 	}
 	if c.Mini {
 		menu = "menu6"
+	}
+	if c.Delay {
+		menu += " delay-bounded"
 	}
 	return s + fmt.Sprintf(" piece%d free=%v bound%d %s", c.Piece, c.Free, c.Bound, menu)
 }
@@ -558,7 +562,6 @@ func c03cacheBody(cfg c03cfg, st *c03state, kc *KeepClient) {
 		get("r", 1)
 		readAt("r", 2)
 		readAt("r", 0)
-		get("r", 1)
 		return
 	case "evict-par":
 		var wg vsched.WaitGroup
@@ -692,6 +695,10 @@ func c03run(r *vrep.Report, cfg c03cfg) vsched.Stats {
 	}
 	opts := vsched.Options{Name: cfg.String(), Bound: cfg.Bound, Report: r, Params: cfg, MaxPoints: 3000,
 		DeadlockOK: true, PanicOK: true, NoShard: cfg.small, SplitDepth: cfg.split}
+	vsched.BlockedSwitchCost = 0
+	if cfg.Delay {
+		vsched.BlockedSwitchCost = 1
+	}
 	if cfg.nohint() {
 		// A locator without size hint makes BlockCache.Get allocate a 64 MiB buffer per fetch.  The
 		// runtime does not touch a buffer that comes straight from the kernel, but it clears (and so
@@ -930,6 +937,17 @@ func c03configs(thorough bool) []c03cfg {
 		for _, mode := range []string{"readall", "readfull", "copy", "bytewise"} {
 			add(c03cfg{Scen: "stream", Services: 3, Retries: 2, Hint: hint, Size: 5, Mode: mode, Piece: 2, Free: false, Bound: pick(3, 5), Full: true, small: true})
 		}
+	}
+	// --- eviction: three distinct blocks through a cache of 1 or 2 blocks (Sweep evicts, later fetches follow),
+	// sequentially, concurrently and as a three-block file; cheap, so that O5 always has something to look at
+	add(c03cfg{Scen: "cache", Readers: "evict", Services: 1, Retries: 0, Hint: true, Size: 5, Size2: 5, Size3: 3, MaxBlocks: 1, Bound: pick(0, 1), split: pick(2, 3)})
+	add(c03cfg{Scen: "cache", Readers: "evict", Services: 1, Retries: 0, Hint: true, Size: 5, Size2: 5, Size3: 3, MaxBlocks: 1, Delay: true, Bound: pick(2, 3)})
+	add(c03cfg{Scen: "cache", Readers: "evict", Services: 2, Retries: 1, Hint: true, Sig: true, Size: 5, Size2: 5, Size3: 5, MaxBlocks: 2, Piece: 2, Delay: true, Bound: pick(2, 3)})
+	add(c03cfg{Scen: "cache", Readers: "evict-par", Services: 1, Retries: 0, Hint: true, Size: 5, Size2: 5, Size3: 5, MaxBlocks: 1, Mini: true, Delay: true, Bound: pick(2, 3), split: pick(2, 3)})
+	add(c03cfg{Scen: "file", Services: 1, Retries: 0, Size: 5, Size2: 3, Size3: 5, Buf: 4, MaxBlocks: 1, Mini: true, Bound: 1, split: 3})
+	if thorough {
+		add(c03cfg{Scen: "file", Services: 1, Retries: 0, Size: 5, Size2: 3, Size3: 5, Buf: 4, MaxBlocks: 1, Delay: true, Bound: 3, split: 3})
+		add(c03cfg{Scen: "cache", Readers: "evict-par", Services: 1, Retries: 0, Hint: true, Size: 5, Size2: 3, Size3: 5, MaxBlocks: 2, Delay: true, Bound: 2, split: 3})
 	}
 	// --- file: two-block file through the collection file system
 	if !thorough {
